@@ -188,7 +188,7 @@ _JSONLINE = re.compile(r'^<<"(\w+)", (".*")>>\s*$')
 _SUMMARY = re.compile(r"^(\d+) states generated, (\d+) distinct states found")
 _DEPTH = re.compile(r"The depth of the complete state graph search is (\d+)")
 _INV = re.compile(r"Error: Invariant (\S+) is violated")
-_PROP = re.compile(r"Error: (?:Action property|Temporal properties?) (.*?) (?:is|were) violated")
+_PROP = re.compile(r"Error: (?:Action property|Temporal propert(?:y|ies)) ?(.*?) ?(?:is|was|were) violated")
 _COV = re.compile(r"^<(\w+) line \d+, col \d+ to line \d+, col \d+ of module (\w+)>: (\d+):(\d+)")
 
 
